@@ -523,10 +523,23 @@ func storyMissing(st *story) {
 	a, b := st.mats[0], st.mats[1]
 	st.start([]kref{mk(a, 257), mk(b, 257)})
 	st.honest(0, 0)
+	// usually the key that disappears is long established (Valid for much more than the
+	// remove hold-down): the 90 days must run from the disappearance, not from FirstSeen
+	if r.Chance(3, 4) {
+		st.tick(vlib.Pick(r, []int64{d90 + 60, 100 * day, 200 * day, 400 * day}))
+		if r.Bool() {
+			st.honest(0, 0)
+		}
+	}
 	i := st.has(b)
 	st.zone = append(st.zone[:i:i], st.zone[i+1:]...)
 	t0 := st.v
 	st.honest(0, 0)
+	// absent from consecutive refreshes
+	for j, n := 0, 1+r.Intn(3); j < n; j++ {
+		st.tick(vlib.Pick(r, []int64{12 * hour, 12 * hour, day, 60}))
+		st.honest(0, 0)
+	}
 	if r.Bool() {
 		st.tick(40 * day)
 		st.honest(10, 5)
@@ -640,6 +653,44 @@ func storyCollision(st *story) {
 	}
 }
 
+// storyDamagedStore: a revocation is on record, then the tombstone file is damaged in every
+// way a file can be (zero length, truncated stream, garbage, unopenable) while the configuration
+// still lists the revoked key and the root has stopped publishing its REVOKE form.
+func storyDamagedStore(st *story) {
+	r := st.r
+	a, b := st.mats[0], st.mats[1]
+	st.start([]kref{mk(a, 257), mk(b, 257)})
+	st.honest(0, 0)
+	st.revokeKey0(a)
+	st.run(st.served(), append(st.activeSigners(), st.revokedSigners()...), nil, "-", "-")
+	if r.Bool() {
+		st.tick(vlib.Pick(r, []int64{12 * hour, 40 * day}))
+		st.honest(0, 0)
+	}
+	// the root drops the revoked key
+	if i := st.has(a); i >= 0 {
+		st.zone = append(st.zone[:i:i], st.zone[i+1:]...)
+	}
+	how := vlib.Pick(r, []string{"tomb-empty", "tomb-empty", "tomb-trunc", "tomb", "t"})
+	if how != "t" {
+		st.op("autota damage %s", how)
+	}
+	if r.Chance(2, 3) {
+		st.op("autota restart")
+	}
+	f := "-"
+	if how == "t" {
+		f = "t"
+	}
+	st.run(st.served(), st.activeSigners(), nil, f, "-")
+	st.tick(12 * hour)
+	st.honest(0, 0)
+	if r.Bool() {
+		st.op("autota restart")
+		st.honest(0, 0)
+	}
+}
+
 // storyForgedClaims: what VERIFIES decides, not which key tags the RRSIGs carry.
 func storyForgedClaims(st *story) {
 	r := st.r
@@ -702,8 +753,16 @@ func storyRandom(st *story, steps int) {
 			st.addKey()
 			st.honest(8, 4)
 		case k < 65:
+			if r.Bool() {
+				st.tick(vlib.Pick(r, []int64{d90 + 60, 120 * day, 300 * day})) // long-established keys
+				st.honest(0, 0)
+			}
 			st.removeKey()
 			st.honest(8, 4)
+			if r.Bool() { // still absent at the next refresh(es)
+				st.tick(12 * hour)
+				st.honest(8, 4)
+			}
 		case k < 71:
 			st.revokeKey()
 			st.honest(20, 12)
@@ -712,7 +771,7 @@ func storyRandom(st *story, steps int) {
 		case k < 95:
 			st.op("autota restart")
 		case k < 97:
-			st.op("autota damage %s", vlib.Pick(r, []string{"tomb", "state", "state"}))
+			st.op("autota damage %s", vlib.Pick(r, []string{"tomb", "state", "state", "tomb-empty", "tomb-empty", "tomb-trunc", "state-empty", "state-trunc"}))
 		default:
 			// 30-day boundary for whatever is pending
 			for m, t := range st.pendAt {
@@ -743,7 +802,8 @@ func gen(r0 *vlib.R, n int, tier string, emit func(string)) {
 	findSpecials()
 	count := 0
 	wrap := func(s string) { emit(s); count++ }
-	scripted := []func(*story){storyRollover, storyMissing, storyLegacy, storyCollision, storyForgedClaims, storyForgedClaims, storyForgedClaims}
+	scripted := []func(*story){storyRollover, storyMissing, storyMissing, storyLegacy, storyCollision, storyDamagedStore, storyDamagedStore,
+		storyForgedClaims, storyForgedClaims, storyForgedClaims}
 	for _, f := range scripted {
 		f(newStory(r, wrap))
 	}
